@@ -522,7 +522,7 @@ BUFFERED_SOCKET = {
             'sock.send': ('send', ['Bytes'], 'Int'), 'time.time': ('time', [], 'Time')},
 }
 _C12 = []
-_C12_TIED = 5          # how many of the methods below have their tie theorem in C12/SrcTie.lean
+_C12_TIED = 9          # how many of the methods below have their tie theorem in C12/SrcTie.lean
 for _py, _params, _res, _thm in [
         ('recv_size', {'size': 'Int', 'timeout': 'Unset (Option Time)'}, 'Bytes', 'C12.src_recv_size_eq_model'),
         ('recv_until', {'delimiter': 'Bytes', 'timeout': 'Unset (Option Time)', 'maxsize': 'Unset (Option Int)',
@@ -531,6 +531,11 @@ for _py, _params, _res, _thm in [
         ('recv_close', {'timeout': 'Unset (Option Time)', 'maxsize': 'Unset (Option Int)'}, 'Bytes',
          'C12.src_recv_close_eq_model'),
         ('recv', {'size': 'Int', 'flags': 'Int', 'timeout': 'Unset (Option Time)'}, 'Bytes', 'C12.src_recv_eq_model'),
+        # round 3f, send side: `sbuf` is a mutable list attribute (`sbuf = self.sbuf` is its one alias; `append`, `[:] =`, `[0]`)
+        ('buffer', {'data': 'Bytes'}, 'None', 'C12.src_buffer_eq_model'),
+        ('send', {'data': 'Bytes', 'flags': 'Int', 'timeout': 'Unset (Option Time)'}, 'Int', 'C12.src_send_eq_model'),
+        ('sendall', {'data': 'Bytes', 'flags': 'Int', 'timeout': 'Unset (Option Time)'}, 'Int', 'C12.src_sendall_eq_model'),
+        ('flush', {}, 'None', 'C12.src_flush_eq_model'),
         ][:_C12_TIED]:
     _C12.append({'module': 'boltons.socketutils', 'qualname': 'BufferedSocket.' + _py, 'lean_name': 'BufferedSocket.' + _py,
                  'cls': BUFFERED_SOCKET, 'params': _params, 'result': _res, 'tie_theorem': _thm,
